@@ -4,6 +4,7 @@ import re
 from hir import nodes, fn_body, callee, last, line_of, peel, pp, norm_path
 from engines import Visit, ty_mentions
 import irp
+from flow import Flow
 import irtpl
 import luatpl
 import luaparse
@@ -74,6 +75,7 @@ def run(F, rep, tier):
     irp_late_read(F, rep, T)
     guarded_arms_lower_alike(F, rep, T)
     lowers_only_what_was_written(F, rep)
+    children_lowered_as_written(F, rep)
     # an early `ret` / `break` can be followed by further statements of its block: the emitter wraps it (`do return x end`) -
     # a bare Lua `return` must be the last statement of its block (shared with C06)
     import core as _core
@@ -100,6 +102,9 @@ def run(F, rep, tier):
     mf_ = c19.meta_functions(ast_)
     c19.arith(rep, mf_, F)
     c19.concat(rep, ast_)
+    # reading an element of a tuple / list / blob yields the element - `false` included (shared with C18)
+    import c18 as _c18
+    _c18.presence_is_not_truth(rep, _c18.Lua(F.read("sylt-compiler/src/preamble.lua")))
     # every variable a lowering template writes is a Lua local of its activation (blobs with `self`, case bindings, results)
     import c10
     c10.local_rule(F, rep, T)
@@ -511,6 +516,47 @@ def lowers_only_what_was_written(F, rep, rule="IRP-synth"):
            "rule means - `not (x >= 0.0)` rewritten to `x < 0.0` answers false for NaN where the program says true" % (
                last(bad[0][0]["_path"], 2), pp(bad[0][2])[:60]), line_of(bad[0][1]) if bad else None)
     rep.floor(rule, "recursive lowering calls", n, 20)
+
+
+def children_lowered_as_written(F, rep, rule="IRP-child"):
+    """Which child a recursive lowering call receives is decided by the arm's pattern alone.  A name that is re-bound from a
+    case split before it is lowered (`let (a, b, op) = match op { Greater => (b, a, Less), .. }`) makes the operand that is
+    evaluated first depend on the node: `next() > next()` runs the right call first."""
+    IRG = "sylt_compiler::intermediate::IRCodeGen::"
+    fold = {IRG + m for m in ("expression", "statement", "definition", "expression_block")}
+    n = 0
+    bad = []
+    for fn in F.fns_in(IRG):
+        fl = Flow(fn, fn_body(fn))
+        for c in nodes(fn_body(fn), "MethodCall"):
+            if callee(c) not in fold or not c["args"]:
+                continue
+            n += 1
+            a = peel_all(c["args"][0])
+            hops = 0
+            while isinstance(a, dict) and a.get("k") == "Path" and a.get("res") == "Local" and hops < 8:
+                o = fl.origin.get(a["hid"])
+                if o is None or o["kind"] != "let" or o.get("src") is None:
+                    break
+                src = peel_all(o["src"])
+                if src.get("k") in ("Match", "If"):
+                    bad.append((fn, c, a.get("name")))
+                    break
+                a = src
+                hops += 1
+    rep.ob(rule, "lowered-child-is-the-pattern's", not bad,
+           "each of the %d recursive lowering calls receives a child named by the arm's pattern (or an element of one)" % n if not bad else
+           "%s lowers `%s`, which was re-bound from a case split: which child of the node that is - and with it the order in which the "
+           "children are evaluated - depends on the node (`a > b` lowered as `b < a` runs b's code first: `next() > next()` compares the "
+           "second result with the first)" % (last(bad[0][0]["_path"], 2), bad[0][2]), line_of(bad[0][1]) if bad else None)
+
+
+def peel_all(e):
+    from hir import peel_clone
+    e = peel_clone(e)
+    while isinstance(e, dict) and ((e.get("k") == "Unary" and e.get("op") == "Deref") or e.get("k") == "AddrOf"):
+        e = peel_clone(e["e"])
+    return e
 
 
 def irp_late_read(F, rep, T, rule="IRP-order"):
